@@ -18,6 +18,7 @@ inline int point_code(const char *id) {
         {"p_lock", 60}, {"p_wait", 61}, {"p_join", 62}, {"q_lock", 70},
         {"p_peek", 63},
         {"q_res", 71},  {"q_wait", 72},
+        {"q_res", 71},  {"q_wait", 72}, {"q_destroy", 73},
         {"busy_g", 42},
         {"sf_set", 52}, {"sf_clr", 53}, {"sf_inc", 54},
         {"busy_n", 43},
